@@ -57,7 +57,7 @@ PROPS = {
         'coq': 'Props/C01.v',
         'families': [
             {'name': 'pk',
-             'args': {'quick': ['--exhaustive', 3, '--random', 20000], 'thorough': ['--exhaustive', 4, '--random', 300000]},
+             'args': {'quick': ['--exhaustive', 3, '--boundary', 2, '--random', 20000], 'thorough': ['--exhaustive', 4, '--boundary', 2, '--random', 300000]},
              'shards': {'quick': 16, 'thorough': 16}, 'driver_args': ['--nodedupe']},
             {'name': 'tree',
              'args': {'quick': ['--corpus', 1, '--joints', 1, '--mutants', 1500, '--lexemes', 800, '--templates', 2500, '--random', 1500],
